@@ -73,6 +73,33 @@ pub mod verif_canary {
 
 
 def run_unit(unit, workdir, seed=0, rlimit=None, probe_labels=frozenset(), tag="main", timeout=900, threads=None):
+    """one unit, one Verus run. Units generated with `loop_isolation(false)` are run a second time with isolated loops
+    when the first run ends undecided on a resource limit: the wider context that makes harmless edits verify also makes
+    some changed code exhaust the solver, and the isolated run then decides (soundly: both encodings are Verus')."""
+    ur = _run_unit_once(unit, workdir, seed, rlimit, probe_labels, tag, timeout, threads)
+    if getattr(unit, "carry_facts_into_loops", True) and ur.undecided \
+            and any("rlimit" in u or "Resource limit" in u for u in ur.undecided):
+        import copy
+        u2 = copy.copy(unit)
+        u2.carry_facts_into_loops = False
+        ur2 = _run_unit_once(u2, workdir, seed, rlimit, probe_labels, tag + "_isolated", timeout, threads)
+        ur2.unit = unit
+        ur2.wall_s += ur.wall_s
+        if len(ur2.undecided) <= len(ur.undecided):
+            ur = ur2
+            unit = u2
+    # a run that is still undecided on a resource limit only is repeated once with four times the limit (Verus'
+    # default is 10): an exhausted query decides nothing, a larger budget often does
+    if ur.undecided and all(("rlimit" in u or "Resource limit" in u) for u in ur.undecided) and rlimit is None:
+        ur3 = _run_unit_once(unit, workdir, seed, 40, probe_labels, tag + "_rlimit40", timeout, threads)
+        ur3.unit = ur.unit
+        ur3.wall_s += ur.wall_s
+        if len(ur3.undecided) < len(ur.undecided) or (ur3.failures and not ur.failures):
+            return ur3
+    return ur
+
+
+def _run_unit_once(unit, workdir, seed=0, rlimit=None, probe_labels=frozenset(), tag="main", timeout=900, threads=None):
     ur = UnitRun(unit)
     t0 = time.time()
     try:
